@@ -145,6 +145,29 @@ Theorem demon2k_ecp_no_number_lost : d2k_ecp_no_number_lost_stmt.
 Proof. exact Demon2kEcpSpec.d2k_ecp_no_number_lost. Qed.
 Print Assumptions demon2k_ecp_no_number_lost.
 
+From BSE Require Import Model.Molcas Proofs.MolcasDefs Model.MolcasEcp Proofs.MolcasEcpDefs Model.GamessUsEcp Proofs.GamessUsEcpDefs Model.GenbasEcp Proofs.GenbasEcpDefs.
+From BSE Require Proofs.MolcasSpec Proofs.MolcasEcpSpec Proofs.GamessUsEcpSpec Proofs.GenbasEcpSpec.
+(* Molcas (both writers), and the whole files of GAMESS-US and CFOUR *)
+Theorem molcas_inline_no_number_lost : mcas_no_number_lost_stmt.
+Proof. exact MolcasSpec.mcas_no_number_lost. Qed.
+Print Assumptions molcas_inline_no_number_lost.
+
+Theorem molcas_library_no_number_lost : mcasl_no_number_lost_stmt.
+Proof. exact MolcasSpec.mcasl_no_number_lost. Qed.
+Print Assumptions molcas_library_no_number_lost.
+
+Theorem molcas_library_ecp_no_number_lost : mcasl_ecp_no_number_lost_stmt.
+Proof. exact MolcasEcpSpec.mcasl_ecp_no_number_lost. Qed.
+Print Assumptions molcas_library_ecp_no_number_lost.
+
+Theorem gamess_us_whole_file_no_number_lost : gus_all_no_number_lost_stmt.
+Proof. exact GamessUsEcpSpec.gus_all_no_number_lost. Qed.
+Print Assumptions gamess_us_whole_file_no_number_lost.
+
+Theorem cfour_whole_file_no_number_lost : c4ecp_no_number_lost_stmt.
+Proof. exact GenbasEcpSpec.c4ecp_no_number_lost. Qed.
+Print Assumptions cfour_whole_file_no_number_lost.
+
 (* the Gaussian94 ECP blocks: every gaussian exponent / coefficient (with the D marker the writer prints), every r exponent
    and the electron count is a token of the text *)
 From BSE Require Import Model.G94Ecp Proofs.G94EcpDefs.
